@@ -1,0 +1,42 @@
+// SPDX-FileCopyrightText: 2024 The Pion community <https://pion.ly>
+// SPDX-License-Identifier: MIT
+
+//go:build verif
+
+package xor
+
+// Machine-checked contracts for /verif (govc).  Comment-only.
+
+//@ arith int
+
+// dst must not partially overlap a or b (exact overlap or none), as for crypto/subtle.XORBytes.
+//@ pure overlapOK(dst []byte, a []byte) bool = base(dst) != base(a) || off(dst) == off(a)
+
+//@ func XorBytes(dst []byte, a []byte, b []byte) (n int)
+//@   requires len(dst) >= min(len(a), len(b)) && overlapOK(dst, a) && overlapOK(dst, b)
+//@   modifies dst[*]
+//@   ensures [n] n == min(len(a), len(b))
+//@   ensures [xor] forall i mathint :: {dst[i]} 0 <= i && i < n ==> dst[i] == old(a[i]) ^ old(b[i])
+//@   ensures [rest] forall i mathint :: {dst[i]} n <= i && i < len(dst) ==> dst[i] == old(dst[i])
+
+// pre-go1.20 / gccgo implementation (xor_old.go)
+//@ func safeXORBytes(dst []byte, a []byte, b []byte, n int)
+//@   requires 0 <= n && n <= len(a) && n <= len(b) && n <= len(dst) && overlapOK(dst, a) && overlapOK(dst, b)
+//@   modifies dst[*]
+//@   ensures [xor] forall k mathint :: {dst[k]} 0 <= k && k < n ==> dst[k] == old(a[k]) ^ old(b[k])
+//@   ensures [rest] forall k mathint :: {dst[k]} n <= k && k < len(dst) ==> dst[k] == old(dst[k])
+//@   loop 1 invariant [range] 0 <= i && i <= n
+//@   loop 1 invariant [done] forall k mathint :: {dst[k]} 0 <= k && k < i ==> dst[k] == old(a[k]) ^ old(b[k])
+//@   loop 1 invariant [todo] forall k mathint :: {dst[k]} i <= k && k < len(dst) ==> dst[k] == old(dst[k])
+//@   loop 1 invariant [srca] forall k mathint :: {a[k]} i <= k && k < len(a) ==> a[k] == old(a[k])
+//@   loop 1 invariant [srcb] forall k mathint :: {b[k]} i <= k && k < len(b) ==> b[k] == old(b[k])
+
+// word-wise loops through unsafe casts: outside govc's subset; trusted contract, exercised by the bounded stand-in
+//@ trusted func fastXORBytes(dst []byte, a []byte, b []byte, n int)
+//@   requires 0 < n && n <= len(a) && n <= len(b) && n <= len(dst) && overlapOK(dst, a) && overlapOK(dst, b)
+//@   modifies dst[*]
+//@   ensures forall k mathint :: {dst[k]} 0 <= k && k < n ==> dst[k] == old(a[k]) ^ old(b[k])
+//@   ensures forall k mathint :: {dst[k]} n <= k && k < len(dst) ==> dst[k] == old(dst[k])
+
+//@ property C20: XorBytes
+//@ property C20 tags=gccgo: XorBytes, safeXORBytes
